@@ -243,7 +243,14 @@ func VerifC18Floats() {
 func VerifC18Nested() {
 	x, y := nd.IntIn(0, 9), nd.IntIn(0, 9)
 	var a, b any
-	switch nd.Choice(6) {
+	switch nd.Choice(9) {
+	case 6:
+		// maps too: a string-keyed typed map is the generic map with the same contents
+		a, b = map[string]any{"x": x, "y": y}, map[string]int{"x": x, "y": y}
+	case 7:
+		a, b = map[string]any{"x": x, "y": "s"}, map[string]any{"x": int8(x), "y": c18Drop{"s"}}
+	case 8:
+		a, b = map[string]any{"x": []any{x}}, map[string]any{"x": []int{x}}
 	case 0:
 		a, b = [2]any{x, y}, [2]any{c18Drop{x}, y}
 	case 1:
@@ -261,6 +268,18 @@ func VerifC18Nested() {
 	out, err := vRender(t, Bindings{"a": a, "b": b, "list": []any{"z", a}})
 	nd.Assert(err == nil, "nested-no-error")
 	nd.Assert(out == "eq|hit|in|", "nested-representations-compare-equal")
+	// and maps that differ in an entry, a key or their size are unequal whatever their Go types
+	var c, d any
+	switch nd.Choice(3) {
+	case 0:
+		c, d = map[string]any{"x": x}, map[string]int{"x": x + 1}
+	case 1:
+		c, d = map[string]any{"x": x}, map[string]any{"x": x, "z": nil}
+	case 2:
+		c, d = map[string]int{"x": x}, map[string]int{"z": x}
+	}
+	out, err = vRender("{% if a == b %}eq{% else %}ne{% endif %}|{% if b == a %}eq{% else %}ne{% endif %}", Bindings{"a": c, "b": d})
+	nd.Assert(err == nil && out == "ne|ne", "different-maps-compare-unequal")
 	nd.Reach("C18.nested")
 }
 
@@ -354,6 +373,8 @@ var c18DropArrayTemplates = []string{
 	"{% if a contains 'b' %}has{% endif %}{% if a contains nil %}nil{% endif %}",
 	"{{ r | sort_natural: 'k' | map: 'k' | join: ',' }}",
 	"{{ r | map: 'k' | compact | join: ',' }}",
+	"{{ r | json }}|{{ tm | json }}|{{ ta | json }}",
+	"{{ a | inspect }}|{{ r | inspect }}|{{ tm | inspect }}",
 }
 
 // VerifC18DropArrays: an array some of whose elements are Drops (standing for strings, nil, numbers)
@@ -372,8 +393,13 @@ func VerifC18DropArrays() {
 	drops := []any{wrap("b", d1), wrap(s1, d2), wrap(nil, d3), "a"}
 	rp := []any{map[string]any{"k": "b"}, map[string]any{"k": s1}, map[string]any{"k": nil}}
 	rd := []any{map[string]any{"k": wrap("b", d1)}, wrap(map[string]any{"k": s1}, d2), map[string]any{"k": wrap(nil, d3)}}
-	o1, e1 := vRender(t, Bindings{"a": plain, "r": rp})
-	o2, e2 := vRender(t, Bindings{"a": drops, "r": rd})
+	// Drops inside typed containers of containers
+	tmp := []map[string]any{{"k": "b"}, {"k": nil}}
+	tmd := []map[string]any{{"k": wrap("b", d1)}, {"k": wrap(nil, d3)}}
+	tap := [][]any{{s1, "a"}}
+	tad := [][]any{{wrap(s1, d2), "a"}}
+	o1, e1 := vRender(t, Bindings{"a": plain, "r": rp, "tm": tmp, "ta": tap})
+	o2, e2 := vRender(t, Bindings{"a": drops, "r": rd, "tm": tmd, "ta": tad})
 	nd.Assert((e1 == nil) == (e2 == nil), "drop-array-same-errorness")
 	if e1 == nil && e2 == nil {
 		nd.Assert(o1 == o2, "drop-array-same-output")
